@@ -210,7 +210,11 @@ def run(facts, chk, tier, only=None):
                     bad.append((rcflag, x, got, want))
         return c, bad
 
-    r = chk.guard('C15.use', 'C15.use:map', use_map)
+    # the complement table in use, decided end to end: `ska map` output on references carrying each split k-mer on either strand and
+    # samples whose repeated k-mers give two- and three-base ambiguity codes (e2e.map_cases) equals the specification
+    from . import e2e
+    chk.guard('C15.e2e', 'C15.e2e:map:run', lambda: e2e.check_map_e2e(facts, chk, 'C15.e2e', tier))
+    r = chk.guard_soft('C15.use', 'C15.use:map', use_map, twins=['C15.e2e:map'])
     if r:
         c, bad = r
         if bad:
